@@ -12,9 +12,7 @@ def run(out, tier, seed):
                 "encrypt/sign with the library's own randomness -> to_string -> parse -> decrypt/verify per backend x purpose x key x payload "
                 "length x footer x assertion, every event validated against L0; distinct = distinct interned byte strings (keys, claims, "
                 "tokens); non-trivial = scenarios with a successful seal")
-    r = C.tlc("MC_Ideal", "MC_Ideal_%s.cfg" % tier, "mc", "c01-mc", workers=12, timeout=7200, heap="16g")
-    C.tlc_must_pass(r, "MC_Ideal")
-    out.add_tlc(r)
+    r = C.ideal_mc(out, tier, "c01", ("tokens",))
     out.extra["mc_ideal_states"] = r.distinct
     # liveness half of C01 on a small configuration: under weak fairness every operation in flight terminates
     if tier == "thorough":
